@@ -69,10 +69,12 @@ func lenAtLeast(cd Cond, isS func(ssa.Value) bool) (applies bool, polarity bool,
 	return
 }
 
-func ruleV1(c *Ctx, id string) {
+func ruleV1(c *Ctx, id string) { ruleV1x(c, id, []string{"fh.MakeFh", "simple.MakeFh"}, 3) }
+
+func ruleV1x(c *Ctx, id string, specs []string, floor int) {
 	P, R := c.P, c.R
-	R.Rule(id, "decode of client bytes is length-guarded: every marshal.Dec read in a handle decoder is dominated by a test that the handle has at least the bytes consumed so far", 3)
-	for _, spec := range []string{"fh.MakeFh", "simple.MakeFh"} {
+	R.Rule(id, "decode of client bytes is length-guarded: every marshal.Dec read in a handle decoder is dominated by a test that the handle has at least the bytes consumed so far", floor)
+	for _, spec := range specs {
 		f := c.fn(id, spec)
 		if f == nil {
 			continue
